@@ -193,6 +193,10 @@ func runC13(c *Ctx) {
 	r.Rule("R13.7", "the invoker calls every callback of the list it selected: one call per element, no early exit")
 	c13InvokesAll(c, "R13.7")
 
+	// ---- R13.8 the library fills a row before it installs it
+	r.Rule("R13.8", "rows the library builds from items are filled while detached and installed afterwards, so table- and column-level add-time callbacks see every cell")
+	c13FillThenInstall(c)
+
 	// ---- R13.6 registration never appends into spare capacity of a list that copies of a cell may share
 	r.Rule("R13.6", "callback lists, which by-value copies of a cell share, are extended by copy, never in place")
 	{
@@ -733,4 +737,127 @@ func c13InvokesAll(c *Ctx, rule string) {
 		r.Check(rule, FuncName(invoke), fmt.Sprintf("nothing but exhaustion of the list ends the loop around callback call #%d", n), in.Pos(), bad == "", "the loop is left early at "+bad+": callbacks registered later (a renderer's own, say) are skipped after an earlier one fails")
 	})
 	r.Floor(rule, "callback invocations in the invoker", n, 1)
+}
+
+// c13FillThenInstall: every call of (*Row).Add made by the core package is on a row that is not in a table yet:
+// the receiver comes from a constructor that neither installs the row nor sets its inTable, and no AddRow of that
+// row precedes the Add. (Table- and column-level add-time cell callbacks fire from AddRow, over the cells the row
+// has at that moment.)
+func c13FillThenInstall(c *Ctx) {
+	r := c.R
+	row := c.Named("", "Row")
+	add := c.Method(row, true, "Add")
+	inTable := c.Field(row, "inTable")
+	at := c.Named("", "ATable")
+	addRow := c.Method(at, true, "AddRow")
+	if add == nil || inTable == nil || addRow == nil {
+		return
+	}
+	var detachedCtor func(f *ssa.Function, depth int) bool
+	detachedCtor = func(f *ssa.Function, depth int) bool {
+		if f == nil || f.Blocks == nil || depth > 3 {
+			return false
+		}
+		ok := true
+		eachInstr(f, func(in ssa.Instruction) {
+			if cal := staticCallee(in); cal != nil {
+				if cal == addRow {
+					ok = false
+				} else if inModule(cal) && cal != f {
+					// a helper: must itself be free of installation
+					sub := true
+					eachInstr(cal, func(in2 ssa.Instruction) {
+						if staticCallee(in2) == addRow {
+							sub = false
+						}
+					})
+					if !sub {
+						ok = false
+					}
+				}
+			} else if m, _ := invokeMethod(in); m == "AddRow" {
+				ok = false
+			}
+			if st, isSt := in.(*ssa.Store); isSt {
+				if fl, _ := storeField(st.Addr); fl == inTable && !isNil(st.Val) {
+					ok = false
+				}
+			}
+		})
+		if !ok {
+			return false
+		}
+		for _, ret := range returnsOf(f) {
+			for _, v := range phiClosure(results(ret)[0]) {
+				switch x := v.(type) {
+				case *ssa.Alloc:
+				case *ssa.Call:
+					if !detachedCtor(x.Call.StaticCallee(), depth+1) {
+						return false
+					}
+				default:
+					return false
+				}
+			}
+		}
+		return true
+	}
+	n := 0
+	for _, fn := range c.ModFuncs("") {
+		if fn == add {
+			continue
+		}
+		eachInstr(fn, func(in ssa.Instruction) {
+			if staticCallee(in) != add {
+				return
+			}
+			n++
+			recv := callCommon(in).Args[0]
+			ok, why := true, ""
+			for _, v := range phiClosure(recv) {
+				switch x := v.(type) {
+				case *ssa.Alloc:
+				case *ssa.Call:
+					if x.Call.StaticCallee() == add {
+						continue // chained r.Add(..).Add(..)
+					}
+					if !detachedCtor(x.Call.StaticCallee(), 0) {
+						ok, why = false, "the row comes from "+calleeDesc(&x.Call)+", which installs it in the table (or may): cells added afterwards are never shown to the table- and column-level add-time callbacks"
+					}
+				case *ssa.Parameter:
+					ok, why = false, "the row is a parameter: it may already be in a table"
+				default:
+					ok, why = false, "origin of the row not recognised: "+v.String()
+				}
+			}
+			// no installation of that row before the Add
+			eachInstr(fn, func(in2 ssa.Instruction) {
+				cal := staticCallee(in2)
+				m, _ := invokeMethod(in2)
+				if cal != addRow && m != "AddRow" {
+					return
+				}
+				cc := callCommon(in2)
+				arg := cc.Args[len(cc.Args)-1]
+				if sameValueSet(arg, recv) && !instrDominates(in, in2) && blockReach(in2.Block(), nil)[in.Block()] {
+					ok, why = false, "the row is installed with AddRow before this cell is added"
+				}
+			})
+			r.Check("R13.8", FuncName(fn), fmt.Sprintf("Row.Add call #%d is made on a row not yet in a table", n), in.Pos(), ok, why)
+		})
+	}
+	if n == 0 {
+		r.Note("R13.8: the core package makes no Row.Add call of its own; nothing to check")
+	}
+}
+
+func sameValueSet(a, b ssa.Value) bool {
+	for _, x := range phiClosure(a) {
+		for _, y := range phiClosure(b) {
+			if x == y {
+				return true
+			}
+		}
+	}
+	return false
 }
